@@ -96,4 +96,15 @@ example : submul_ui ⟨2, 2, [0, 1]⟩ ⟨2, 2, [1, 1]⟩ (B - 1) = ⟨3, -2, [B
 -- the held -1 (cy2) of aorsmul_i.c:169-178
 example : toInt (submul_ui ⟨1, 1, [5]⟩ ⟨2, 2, [1, 1]⟩ 1) = 5 - (B + 1) := by decide
 
+/-- C05 for mpz_mul at the level of this model: every alias pattern and every destination give the
+    value of the call on distinct variables (`{}` = no two arguments are the same variable). -/
+theorem mpz_mul_alias_ok (thr : Nat) (al : Alias) (w w' u v : Mpz) (hw : 1 ≤ w.alloc) (hw' : 1 ≤ w'.alloc)
+    (hu : WF u) (hv : WF v) (huv : al.uv = true → u = v) :
+    toInt (mul thr al w u v) = toInt (mul thr {} w' u v) := by
+  rw [(mpz_mul_exact thr al w u v hw hu hv huv).1,
+    (mpz_mul_exact thr {} w' u v hw' hu hv (by intro h; cases h)).1]
+
+example : toInt (mul 17 ⟨true, true, true⟩ ⟨2, -2, [3, 1]⟩ ⟨2, -2, [3, 1]⟩ ⟨2, -2, [3, 1]⟩)
+    = toInt (mul 17 {} init ⟨2, -2, [3, 1]⟩ ⟨2, -2, [3, 1]⟩) := by decide
+
 end Mpir.Mpz
